@@ -691,11 +691,11 @@ fn worker(ctx: &Ctx, tid: usize, ops: &[Op], end_add: bool, seed: u64) {
             Op::Send(which) => {
                 if !held.is_empty() {
                     let h = held.remove(which % held.len());
-                    ctx.exchange.lock().unwrap().push(h);
+                    ctx.exchange.lock().unwrap_or_else(|e| e.into_inner()).push(h);
                 }
             }
             Op::Recv => {
-                let got = ctx.exchange.lock().unwrap().pop();
+                let got = ctx.exchange.lock().unwrap_or_else(|e| e.into_inner()).pop();
                 if let Some(h) = got {
                     held.push(h);
                 }
@@ -789,8 +789,29 @@ fn run_history(h: &History, seed: u64) -> RunOut {
         start.store(true, SeqCst);
     });
 
+    // A panic inside a pool call poisons the pool's lock and leaves the history
+    // unfinished: report what was seen and abandon this pool.
+    {
+        let mut l = ledger.lock().unwrap_or_else(|e| e.into_inner());
+        if l.viols.iter().any(|v| v.kind == "panic_in_pool_call") {
+            let mut out = RunOut::default();
+            out.viols = std::mem::take(&mut l.viols);
+            out.viols.retain(|v| v.kind == "panic_in_pool_call");
+            out.viols.truncate(1);
+            out.events = l.events;
+            out.order = l.order;
+            drop(l);
+            std::mem::forget(pool);
+            if tracking {
+                let _ = track::take_errors();
+                track::forget_workload_blocks();
+            }
+            return out;
+        }
+    }
+
     // Buffers still in transit between threads: free them here.
-    let leftovers: Vec<Held> = std::mem::take(&mut *exchange.lock().unwrap());
+    let leftovers: Vec<Held> = std::mem::take(&mut *exchange.lock().unwrap_or_else(|e| e.into_inner()));
     for hd in leftovers {
         give(&ctx, h.threads.len(), hd, Give::Drop);
     }
